@@ -61,6 +61,15 @@ first child that answers true. -/
 def joinedBall {P : Type} (admits : P → α → Bool) (parts : List (P → α → Bool)) (c : P) (r : α) : Bool :=
   admits c r && parts.any (fun s => s c r)
 
+/-- `ColliderContains(c, coord, margin)` (collisions.go): even-odd containment along the library's fixed
+direction `cdir`, combined with a ball query for a non-zero margin. -/
+def colliderContains {H : Type} (ray : V3 α × V3 α → Bool → Nat × List H) (sphere : V3 α → α → Bool)
+    (cdir coord : V3 α) (margin : α) : Bool :=
+  let collisions := (ray (coord, cdir) false).1
+  if collisions % 2 == 0 then
+    if margin < 0 then sphere coord (-margin) else false
+  else decide (margin ≤ 0) || !sphere coord margin
+
 end XfBall
 
 end M3d.Col
